@@ -8,7 +8,7 @@ OWN_PROPS = {"OWN-git-count-first-parent": "C02", "OWN-git-status-uno": "C02", "
              "OWN-dev-timestamp-local-now": "C14", "OWN-python-wrong-flag": "C18", "OWN-sanitize-keep-double-separator": "C16"}
 log = open("/tmp/wt/confirm_all.log").read() if os.path.exists("/tmp/wt/confirm_all.log") else ""
 for prop in sorted(os.listdir(SRC)):
-    labels = ("A", "B", "C", "D") if prop != "OWN" else sorted(os.listdir(os.path.join(SRC, prop)))
+    labels = ("A", "B", "C", "D", "E", "F") if prop != "OWN" else sorted(os.listdir(os.path.join(SRC, prop)))
     for x in labels:
         d = os.path.join(SRC, prop, x)
         if not os.path.exists(os.path.join(d, "patch.diff")):
